@@ -163,7 +163,7 @@ func generateVCs(p *Prog, f *FuncIVL) ([]*Query, error) {
 					snapshot[k] = v
 				}
 				pb.queries = append(pb.queries, &pendingQuery{ob: s.Ob, cond: cond, goal: sb.String(), lineN: len(pb.lines), inc: snapshot})
-				if !s.Ob.Canary && !s.Ob.Cover {
+				if !s.Ob.Canary && !s.Ob.Cover && s.Ob.Kind != "ensures" && s.Ob.Kind != "frame" {
 					// assert-then-assume
 					condN++
 					cn := fmt.Sprintf("$C%d_%d", b.ID, condN)
